@@ -52,9 +52,14 @@ pub fn scenario(subseed: u64, tree: &Tree, small: bool) -> Scenario {
                 c["opts"]["struct_ident"] = json!(op);
                 c["opts"]["operation_name"] = json!(op);
             }
-            if rng.chance(1, 8) {
-                let role = if rng.chance(1, 2) { "query" } else { "schema" };
-                c[role] = json!(tree.abs("bad/missing.graphql"));
+            // failing calls of several stages racing with the valid ones: load failure, failure in
+            // the middle of schema conversion, validation failure deep inside a selection
+            match rng.below(16) {
+                0 => c["query"] = json!(tree.abs("bad/missing.graphql")),
+                1 => c["schema"] = json!(tree.abs("bad/missing.graphql")),
+                2 => c["schema"] = json!(tree.abs("bad/dangling_type_schema.graphql")),
+                3 if d == "syn_iface" => c["query"] = json!(tree.spell(d, "query_deepbad.graphql", 0)),
+                _ => {}
             }
             calls.push(c);
         }
